@@ -195,7 +195,9 @@ func (w *World) partners(g *G, c *core, wantSend bool, caseIdx int, out []int32)
 
 // comm runs a (possibly single-case) select: park, then perform the chosen alternative.
 func (w *World) comm(cases []selCase, hasDefault bool, name string) (idx int, val any, ok bool) {
-	p := &pend{kind: opComm, cases: cases, hasDefault: hasDefault, name: name}
+	w.checkAbort()
+	p := &w.cur.pbuf
+	*p = pend{kind: opComm, cases: cases, hasDefault: hasDefault, name: name}
 	alt := w.yield(p)
 	g := w.cur
 	switch alt {
@@ -305,9 +307,10 @@ func (w *World) lowViolation(g *G, what string) {
 // Send is the rewritten `c <- v`.
 func (ch *Chan[T]) Send(v T) {
 	w := Cur()
-	var cs [1]selCase
+	w.checkAbort()
+	cs := w.cur.casebuf[:1]
 	cs[0] = selCase{c: ch.core(), send: true, val: v}
-	w.comm(cs[:], false, "send")
+	w.comm(cs, false, "send")
 }
 
 // Recv is the rewritten `<-c`.
@@ -319,9 +322,10 @@ func (ch *Chan[T]) Recv() T {
 // Recv2 is the rewritten `v, ok := <-c`.
 func (ch *Chan[T]) Recv2() (T, bool) {
 	w := Cur()
-	var cs [1]selCase
+	w.checkAbort()
+	cs := w.cur.casebuf[:1]
 	cs[0] = selCase{c: ch.core()}
-	_, v, ok := w.comm(cs[:], false, "recv")
+	_, v, ok := w.comm(cs, false, "recv")
 	var zero T
 	if !ok {
 		return zero, false
@@ -340,7 +344,12 @@ func (ch *Chan[T]) Close() {
 		panic("close of nil channel")
 	}
 	c := &ch.c
-	w.yield(&pend{kind: opClose, name: "close " + c.Label, objs: []*Obj{&c.Obj}})
+	w.checkAbort()
+	g0 := w.cur
+	g0.objbuf[0] = &c.Obj
+	p := &g0.pbuf
+	*p = pend{kind: opClose, name: "close", objs: g0.objbuf[:1]}
+	w.yield(p)
 	g := w.cur
 	if g.low {
 		w.lowViolation(g, "close")
@@ -370,7 +379,13 @@ func (ch *Chan[T]) Cap() int {
 // Select is the rewritten select statement: it returns the index of the chosen case (-1 = default).
 func Select(hasDefault bool, cases ...SelCase) int {
 	w := Cur()
-	cs := make([]selCase, len(cases))
+	w.checkAbort()
+	var cs []selCase
+	if len(cases) <= len(w.cur.casebuf) {
+		cs = w.cur.casebuf[:len(cases)]
+	} else {
+		cs = make([]selCase, len(cases))
+	}
 	for i, c := range cases {
 		cs[i] = c.selCase()
 	}
